@@ -51,5 +51,27 @@ theorem pi_api_w (W : World) {B : ℕ} (h : W.OK B) (pi : ℕ → ℕ) (x : ℤ)
     have hd : decide ((PiApi.int64Max : ℤ) < x) = false := decide_eq_false hw
     exact W.pi_api h pi x hx threads isPrint r hphi hrec (by rw [hd]; exact hex)
 
+/-- **the prime vectors of the tables ARE what `generate_primes<T>(max)` returns**: the C17 constructor models read their primes as
+    `genPrimes gen max = 0 :: gen 0 (max + 1)` from the generator; the real `generate_primes` (generate_primes.cpp → StorePrimes.hpp
+    `store_primes`: two loops over `primesieve::iterator`, the last 64-bit prime appended by hand) over the iterator model over the same sieving
+    core returns exactly that list — for every `max` inside `uint64_t` and the vector's element type -/
+theorem generate_primes_eq (W : World) {B : ℕ} (h : W.OK B) (vmax mx : ℕ) (hv : mx ≤ vmax) (hu : mx ≤ It.umax) :
+    It.pcGeneratePrimes W.env vmax mx = .ok (genPrimes W.gen mx) := by
+  obtain ⟨l, hl, hP⟩ := It.pcGeneratePrimes_correct W.env (W.env_spec h) vmax mx hv hu
+  obtain ⟨hs, hm⟩ := W.gen_spec h 0 (mx + 1)
+  have hG : It.PrimesIn (W.gen 0 (mx + 1)) 0 mx :=
+    ⟨hs, fun q => by rw [hm q]; constructor
+                     · rintro ⟨_, h2, h3⟩; exact ⟨h3, Nat.zero_le _, by omega⟩
+                     · rintro ⟨h1, _, h3⟩; exact ⟨Nat.zero_le _, by omega, h1⟩⟩
+  rw [hl, It.PrimesIn.unique hP hG]
+  rfl
+
+/-- the same for the vector `generate_n_primes<int32_t>(a)` of phi.cpp: it is `[0, p 1, …, p a]` whenever `p a` fits -/
+theorem generate_n_primes_eq (W : World) {B : ℕ} (h : W.OK B) (x a N : ℕ) (ha : a ≤ π N) (hN : N ≤ 2 ^ 31 - 1) :
+    W.prime x a 0 = 0 ∧ ∀ i, 1 ≤ i → i ≤ a → W.prime x a i = Spec.p i := by
+  obtain ⟨_, g0, g1⟩ := It.genNPrimesFn_spec W.env (W.env_spec h) (2 ^ 31 - 1) a (W.nthHint x a) N ha
+    (by unfold It.umax; omega) hN
+  exact ⟨g0, g1⟩
+
 end World
 end Pc.Close
